@@ -30,6 +30,7 @@ from .math import (
     clamp,
     is_affine_st,
     is_almost_int,
+    maybe_int,
     maybe_zero,
     resolution_from_affine,
     snap_affine,
@@ -340,7 +341,8 @@ class GeoBoxBase:
         return shape_((ny, nx)), affine
 
     def compute_zoom_out(self, factor: float) -> Tuple[Shape2d, Affine]:
-        ny, nx = (max(1, math.ceil(s / factor)) for s in self.shape)
+        # maybe_int: 100/(100/29) is 29.000000000000004, should not round up to 30
+        ny, nx = (max(1, math.ceil(maybe_int(s / factor, 1e-9))) for s in self.shape)
         A = self._affine * Affine.scale(factor, factor)
         return (shape_((ny, nx)), A)
 
